@@ -2024,6 +2024,110 @@ def _u_none(m, f):
     return any(isinstance(s, ast.Assign) and _u(s.targets[0]) == 'self.' + f and _u(s.value) == 'None' for s in m.body)
 
 
+
+# =====================================================================================================================
+# Round 4: LinSpaceBuilder.hold_voltage, the part that turns one voltage into (base, factors): the loop over the open
+# iterations (self._ranges, outermost first; names may repeat = shadowing).
+#
+#   for value in voltages:
+#       if not isinstance(value, SimpleExpression): bases.append(float(value)); factors.append(None); continue
+#       offsets = value.offsets;  base = value.base;  incs = []
+#       for level, (rng_name, rng) in enumerate(ranges):  <float statements>          -> Fixpoint gen_hold_voltage_loop2
+#       factors.append(tuple(incs));  bases.append(base)
+#
+# Index names are an abstract type with decidable equality (nat); a python range is (start, step) (only these attributes may be
+# used); `ranges[level + 1:]` inside `for level, .. in enumerate(ranges)` is the part of the list not yet visited; `if o and c`
+# on an Optional[float] o narrows o in the branch.
+
+class HoldVoltageTranslator:
+    def __init__(self, tree):
+        cl = _class(tree, 'LinSpaceBuilder')
+        self.m = _method(cl, 'hold_voltage')
+        if [x.arg for x in self.m.args.args] != ['self', 'duration', 'voltages']:
+            raise Unsupported('hold_voltage signature')
+
+    def q(self, e, env):
+        """float expression over the locals"""
+        if isinstance(e, ast.Constant) and type(e.value) is float and e.value == 0.0:
+            return '0%Q'
+        if isinstance(e, ast.Name) and env.get(e.id) == 'Q':
+            return e.id
+        if isinstance(e, ast.Attribute) and isinstance(e.value, ast.Name) and env.get(e.value.id) == 'range' and e.attr in ('start', 'step'):
+            return '(inject_Z (%s %s))' % ({'start': 'fst', 'step': 'snd'}[e.attr], e.value.id)
+        if isinstance(e, ast.BinOp) and type(e.op) in (ast.Add, ast.Sub, ast.Mult):
+            return '(%s %s %s)%%Q' % (self.q(e.left, env), {ast.Add: '+', ast.Sub: '-', ast.Mult: '*'}[type(e.op)], self.q(e.right, env))
+        raise Unsupported('float expression ' + _u(e))
+
+    def stmts(self, ss, env, again):
+        if not ss:
+            return again
+        s, rest = ss[0], ss[1:]
+        if isinstance(s, ast.Assign) and len(s.targets) == 1 and isinstance(s.targets[0], ast.Name):
+            n = s.targets[0].id
+            if _u(s.value) == 'offsets.get(rng_name, None)' and env.get('offsets') == 'offsets' and env.get('rng_name') == 'name' and n not in env:
+                return 'let %s := (alookup Nat.eqb rng_name offsets) in\n%s' % (n, self.stmts(rest, dict(env, **{n: 'optQ'}), again))
+            if n in env and env[n] != 'Q':
+                raise Unsupported('assignment to ' + n)
+            return 'let %s := %s in\n%s' % (n, self.q(s.value, env), self.stmts(rest, dict(env, **{n: 'Q'}), again))
+        if isinstance(s, ast.AugAssign) and isinstance(s.target, ast.Name) and env.get(s.target.id) == 'Q' and type(s.op) in (ast.Add, ast.Sub):
+            n = s.target.id
+            return 'let %s := (%s %s %s)%%Q in\n%s' % (n, n, '+' if isinstance(s.op, ast.Add) else '-', self.q(s.value, env), self.stmts(rest, env, again))
+        if isinstance(s, ast.Expr) and _u(s.value).startswith('incs.append(') and len(s.value.args) == 1:
+            return 'let incs := (incs ++ [%s]) in\n%s' % (self.q(s.value.args[0], env), self.stmts(rest, env, again))
+        if isinstance(s, ast.If) and isinstance(s.test, ast.BoolOp) and isinstance(s.test.op, ast.And) and len(s.test.values) == 2 and not s.orelse:
+            o, c = s.test.values
+            if not (isinstance(o, ast.Name) and env.get(o.id) == 'optQ'):
+                raise Unsupported('if ' + _u(s.test))
+            want = 'all((inner_name != rng_name for inner_name, _ in ranges[level + 1:]))'
+            if _u(c) != want or env.get('level') != 'counter':
+                raise Unsupported('if ' + _u(c))
+            cond = "(forallb (fun '(inner_name, _) => (negb (Nat.eqb inner_name rng_name))) l')"
+            for sub in s.body:
+                if not isinstance(sub, ast.AugAssign):
+                    raise Unsupported('statement in the branch: ' + _u(sub))
+            no = self.stmts(rest, env, again)
+            yes = self.stmts(s.body + rest, dict(env, **{o.id: 'Q'}), again)
+            # `o and c`: None and 0.0 are falsy
+            return ('match %s with\n| Some %s =>\nif ((negb (Qeq_bool %s 0)) && %s) then\n%s\nelse\n%s\n| None =>\n%s\nend'
+                    % (o.id, o.id, o.id, cond, yes, no, no))
+        raise Unsupported('statement ' + _u(s)[:80])
+
+    def translate(self):
+        body = _body(self.m)
+        if not any(_u(s) == 'ranges = self._ranges' for s in body):
+            raise Unsupported('hold_voltage: ranges = self._ranges')
+        loops = [s for s in body if isinstance(s, ast.For)]
+        if len(loops) != 1 or _u(loops[0].target) != 'value' or _u(loops[0].iter) != 'voltages':
+            raise Unsupported('hold_voltage: loop over the voltages')
+        b = loops[0].body
+        if len(b) != 7:
+            raise Unsupported('hold_voltage: loop body')
+        plain = b[0]
+        if not (isinstance(plain, ast.If) and _u(plain.test) == 'not isinstance(value, SimpleExpression)' and not plain.orelse
+                and [_u(x) for x in plain.body] == ['bases.append(float(value))', 'factors.append(None)', 'continue']):
+            raise Unsupported('hold_voltage: plain number branch')
+        if [_u(x) for x in b[1:4]] != ['offsets = value.offsets', 'base = value.base', 'incs = []'] or \
+                [_u(x) for x in b[5:]] != ['factors.append(tuple(incs))', 'bases.append(base)']:
+            raise Unsupported('hold_voltage: statements around the inner loop')
+        inner = b[4]
+        if not (isinstance(inner, ast.For) and _u(inner.target) == '(level, (rng_name, rng))' and _u(inner.iter) == 'enumerate(ranges)' and not inner.orelse):
+            raise Unsupported('hold_voltage: inner loop header')
+        for sub in ast.walk(inner):
+            if isinstance(sub, ast.Attribute) and isinstance(sub.value, ast.Name) and sub.value.id == 'rng' and sub.attr not in ('start', 'step'):
+                raise Unsupported('rng.%s' % sub.attr)
+        env = {'offsets': 'offsets', 'base': 'Q', 'rng_name': 'name', 'rng': 'range', 'level': 'counter'}
+        again = "gen_hold_voltage_loop2 l' offsets base incs"
+        txt = self.stmts(inner.body, env, again)
+        loop = ('Fixpoint gen_hold_voltage_loop2 (l : list (nat * (Z * Z))) (offsets : list (nat * Q)) (base : Q) (incs : list Q) {struct l} : Q * list Q :=\n'
+                "match l with\n| (rng_name, rng) :: l' =>\n%s\n| [] => (base, incs)\nend." % txt)
+        main = ('(* one voltage of hold_voltage: a plain number (float(value), factors None) or a SimpleExpression (base, offsets by index name) *)\n'
+                'Definition gen_hold_voltage_plain (value : Q) : Q * option (list Q) := (value, None).\n\n'
+                'Definition gen_hold_voltage_expr (ranges : list (nat * (Z * Z))) (value_offsets : list (nat * Q)) (value_base : Q) : Q * option (list Q) :=\n'
+                'let offsets := value_offsets in\nlet base := value_base in\nlet incs := (@nil Q) in\n'
+                "let '(base, incs) := gen_hold_voltage_loop2 ranges offsets base incs in\n(base, Some incs).")
+        return loop + '\n\n' + main
+
+
 def translate_translator(path):
     with open(path) as fh:
         tree = ast.parse(fh.read())
@@ -2041,11 +2145,11 @@ def translate_translator(path):
         tr.rec_cls = {'node': tr.rec_for.get(name)}
         texts.append(tr.method_text(name, params))
     texts.append(tr.add_node_text())
-    parts = ['(* GENERATED by /verif/translate/py2gallina_c17.py (KeyTranslator, DepsTranslator, TrTranslator) from %s: the node dataclasses, '
+    parts = ['(* GENERATED by /verif/translate/py2gallina_c17.py (KeyTranslator, DepsTranslator, TrTranslator, HoldVoltageTranslator) from %s: the node dataclasses, '
              'DepKey.from_voltages, dependencies(), _TranslationState.new_loop/get_dependency_state/_entry_state_unchanged_since/'
-             '_add_repetition_node/_add_iteration_node/add_node, to_increment_commands, LinSpaceVM.__init__ -- do not edit *)' % path,
+             '_add_repetition_node/_add_iteration_node/add_node, to_increment_commands, LinSpaceVM.__init__, the voltage loop of LinSpaceBuilder.hold_voltage -- do not edit *)' % path,
              'From Coq Require Import ZArith QArith List Bool.',
              'Require Import QV.C17.Model QV.C17.GenLib QV.C17.Gen_linspace QV.C17.Gen_linspace_obj.', 'Import ListNotations.', '',
              node_inductive(tree), resolution_constant(tree), KeyTranslator(tree).translate(), DepsTranslator(tree).translate()] + texts + \
-            [translation_state_default(tree), to_increment_commands_text(tree), vm_init_text(tree), '']
+            [translation_state_default(tree), to_increment_commands_text(tree), vm_init_text(tree), HoldVoltageTranslator(tree).translate(), '']
     return '\n\n'.join(parts)
